@@ -31,12 +31,19 @@ def use_repo():
 
 
 def load_findings():
-    p = os.path.join(VERIF, 'known_findings.json')
-    if not os.path.exists(p):
-        return []
-    with open(p) as f:
-        data = json.load(f)
-    return data.get('findings', [])
+    """known_findings.json plus known_findings.d/*.json (one file per property)."""
+    out = []
+    paths = [os.path.join(VERIF, 'known_findings.json')]
+    d = os.path.join(VERIF, 'known_findings.d')
+    if os.path.isdir(d):
+        paths += [os.path.join(d, f) for f in sorted(os.listdir(d)) if f.endswith('.json')]
+    for p in paths:
+        if not os.path.exists(p):
+            continue
+        with open(p) as f:
+            data = json.load(f)
+        out.extend(data.get('findings', []))
+    return out
 
 
 def _match_value(want, got):
